@@ -36,7 +36,8 @@ ASSUMPTIONS = [
 ]
 
 ERRORS = ["EPIPE", "ECONNRESET", "TIMEOUT"]
-KINDS = ["doc", "menu", "error", "info", "dirinfo", "zipmember", "mboxfolder", "mboxmsg", "html", "maildirmsg", "gzdoc", "script"]
+KINDS = ["doc", "menu", "error", "info", "dirinfo", "zipmember", "mboxfolder", "mboxmsg", "html", "maildirmsg", "gzdoc", "script",
+         "pctdoc", "pctmenu", "pcterror"]
 FORMS = ["gopher", "gophers", "gplus", "http", "https", "head", "wap", "gemini", "spartan"]
 
 
@@ -99,6 +100,9 @@ def _spec(size, nmenu):
     # produced with the help of a child process whose output the server relays (several 64 KiB copy blocks)
     spec.append(["big.txt.gz", "f", sites.gz_text("0123456789abcdef" * 64 * 200)])
     spec.append(["out.sh", "f", "#!/bin/sh\nhead -c 200000 /dev/zero | tr '\\0' 'y'\necho\n", 0o755])
+    # names that are format-string / template syntax (a selector ends up in log lines and error replies)
+    spec.append(["100% %s {0}.txt", "f", "percent\n" * 80])
+    spec.append(["rate%d/in.txt", "f", "e\n"])
     return spec
 
 
@@ -108,7 +112,8 @@ def _request(kind, form):
         return clients.encode(form, b"/big.bin")
     sel = {"doc": b"/big.bin", "menu": b"/menu", "error": b"/missing", "info": b"/big.bin", "dirinfo": b"/menu",
            "zipmember": b"/arch.zip/m.txt", "mboxfolder": b"/box.mbox", "mboxmsg": b"/box.mbox|/MBOX-MESSAGE/2",
-           "html": b"/page.html", "maildirmsg": b"/md|/MAILDIR-MESSAGE/1", "gzdoc": b"/big.txt.gz", "script": b"/out.sh"}[kind]
+           "html": b"/page.html", "maildirmsg": b"/md|/MAILDIR-MESSAGE/1", "gzdoc": b"/big.txt.gz", "script": b"/out.sh",
+           "pctdoc": b"/100% %s {0}.txt", "pctmenu": b"/rate%d", "pcterror": b"/missing 5% %(x)s"}[kind]
     if kind == "info":
         if fam != "gplus":
             return None
@@ -432,7 +437,7 @@ def check_case(case, ctx):
         ctx.sample({"kind": kind, "form": form, "err": errname, "write_calls": n}, cls=kind)
         errcls = type(_err(errname)).__name__
         allowed = {errcls}
-        if kind == "error":
+        if kind in ("error", "pcterror"):
             allowed.add("FileNotFound")
         if kind == "unclaimed":
             allowed.add("AttributeError")  # today's code logs that nobody claimed the request as an AttributeError
